@@ -23,15 +23,16 @@ VARIABLES g,             \* G: the grammar being explored ("" in M/S)
 allvars == <<req, cache, last, g, h>>
 
 (* ---------------------------------------------------------------- alphabets and bounds *)
-Grammars == {"accept", "range", "rset", "clen", "clenx", "etag", "fwd", "xff", "host"}     \* rset: the range-set after "bytes="
+Grammars == {"accept", "range", "rset", "clen", "clenx", "etag", "fwd", "xff", "host", "rbig"}     \* rset / rbig: the range-set after "bytes=" (rbig: numerals beyond 2^63 / 2^64)
 HdrOf == ("accept" :> "accept") @@ ("range" :> "range") @@ ("rset" :> "range") @@ ("clen" :> "content-length") @@ ("clenx" :> "content-length") @@ ("etag" :> "if-none-match") @@
-         ("fwd" :> "forwarded") @@ ("xff" :> "x-forwarded-for") @@ ("host" :> "host")
+         ("fwd" :> "forwarded") @@ ("xff" :> "x-forwarded-for") @@ ("host" :> "host") @@ ("rbig" :> "range")
 GAttrs == ("accept" :> <<"client_accepts_json", "client_accepts_xml", "accepts_text_plain", "prefers">>) @@
           ("range" :> <<"range", "range_unit">>) @@ ("rset" :> <<"range", "range_unit">>) @@ ("clen" :> <<"content_length">>) @@ ("clenx" :> <<"content_length">>) @@
           ("etag" :> <<"if_none_match">>) @@
           ("fwd" :> <<"forwarded", "access_route", "forwarded_scheme", "forwarded_host", "forwarded_uri">>) @@
           ("xff" :> <<"access_route">>) @@
-          ("host" :> <<"host", "port", "netloc", "subdomain", "uri", "forwarded_host">>)
+          ("host" :> <<"host", "port", "netloc", "subdomain", "uri", "forwarded_host">>) @@
+          ("rbig" :> <<"range", "range_unit">>)
 Alpha == ("accept" :> AcceptTokens \ {"*/*;q=0", ";q=2"}) @@
          ("range" :> {"bytes", "items", "=", "-", ",", SP, "x", "0", "1", "8"}) @@
          ("rset"  :> {"0", "1", "8", "-", ",", SP, "x"}) @@
@@ -43,12 +44,13 @@ Alpha == ("accept" :> AcceptTokens \ {"*/*;q=0", ";q=2"}) @@
                       ";", ",", SP, "@", "for"}) @@
          ("xff"   :> XffTokens) @@
          ("host"  :> {"localhost", "example.com", "api.", "abc", "192.0.2.7", "[::1]", "[2001:db8::1]",
-                      "8", "0", "4", ":", "[", "]", SP})
+                      "8", "0", "4", ":", "[", "]", SP}) @@
+         ("rbig"  :> BigToks \cup {"0", "7", "-"})
 
-BoundsTiny == ("accept" :> 2) @@ ("range" :> 2) @@ ("rset" :> 3) @@ ("clen" :> 2) @@ ("clenx" :> 1) @@ ("etag" :> 2) @@ ("fwd" :> 2) @@ ("xff" :> 2) @@ ("host" :> 2)
-BoundsQ  == ("accept" :> 3) @@ ("range" :> 4) @@ ("rset" :> 7) @@ ("clen" :> 3) @@ ("clenx" :> 2) @@ ("etag" :> 4) @@ ("fwd" :> 3) @@ ("xff" :> 4) @@ ("host" :> 3)
-BoundsT  == ("accept" :> 4) @@ ("range" :> 5) @@ ("rset" :> 8) @@ ("clen" :> 5) @@ ("clenx" :> 3) @@ ("etag" :> 5) @@ ("fwd" :> 4) @@ ("xff" :> 6) @@ ("host" :> 4)
-BoundsET == ("accept" :> 4) @@ ("range" :> 5) @@ ("rset" :> 8) @@ ("clen" :> 5) @@ ("clenx" :> 3) @@ ("etag" :> 4) @@ ("fwd" :> 4) @@ ("xff" :> 5) @@ ("host" :> 4)
+BoundsTiny == ("accept" :> 2) @@ ("range" :> 2) @@ ("rset" :> 3) @@ ("clen" :> 2) @@ ("clenx" :> 1) @@ ("etag" :> 2) @@ ("fwd" :> 2) @@ ("xff" :> 2) @@ ("host" :> 2) @@ ("rbig" :> 3)
+BoundsQ  == ("accept" :> 3) @@ ("range" :> 4) @@ ("rset" :> 7) @@ ("clen" :> 3) @@ ("clenx" :> 2) @@ ("etag" :> 4) @@ ("fwd" :> 3) @@ ("xff" :> 4) @@ ("host" :> 3) @@ ("rbig" :> 5)
+BoundsT  == ("accept" :> 4) @@ ("range" :> 5) @@ ("rset" :> 8) @@ ("clen" :> 5) @@ ("clenx" :> 3) @@ ("etag" :> 5) @@ ("fwd" :> 4) @@ ("xff" :> 6) @@ ("host" :> 4) @@ ("rbig" :> 6)
+BoundsET == ("accept" :> 4) @@ ("range" :> 5) @@ ("rset" :> 8) @@ ("clen" :> 5) @@ ("clenx" :> 3) @@ ("etag" :> 4) @@ ("fwd" :> 4) @@ ("xff" :> 5) @@ ("host" :> 4) @@ ("rbig" :> 6)
 
 NoHeaders == [n \in HNames |-> Absent]
 Base(scheme) == [scheme |-> scheme, server |-> <<"srv.test", 8000>>, peer |-> "127.0.0.1",
@@ -58,7 +60,7 @@ Base(scheme) == [scheme |-> scheme, server |-> <<"srv.test", 8000>>, peer |-> "1
    operator applications under a 20-arm CASE), so the vacuity guard counts action firings itself:
    every named action bumps a TLC register and the C configs (run with ONE worker, so the registers
    are exact) print the counts in a POSTCONDITION as <<"FIRED", action, count>>. *)
-ActionNames == <<"XAccept", "XRange", "XRSet", "XCLen", "XCLenX", "XETag", "XFwd", "XXff", "XHost",
+ActionNames == <<"XAccept", "XRange", "XRSet", "XCLen", "XCLenX", "XETag", "XFwd", "XXff", "XHost", "XRBig",
                  "XReadUri", "XReadForwardedUri", "XReadRelativeUri", "XReadPrefix", "XReadForwardedPrefix",
                  "XReadForwarded", "XReadAccessRoute", "XReadETags", "XReadPlain", "XGetHeader">>
 ActIdx(n) == CHOOSE i \in 1..Len(ActionNames) : ActionNames[i] = n
@@ -68,13 +70,13 @@ PrintCounters == \A i \in 1..Len(ActionNames) : PrintT(<<"FIRED", ActionNames[i]
 (* the vocabulary, for the harness' random generator (so that it is not written down twice) *)
 PrintVocab == PrintT(ToJson([vocab |-> [range |-> RangeTokens, clen |-> CLenTokens, etag |-> ETagTokens, fwd |-> FwdTokens,
                                         xff |-> XffTokens, host |-> HostTokens, accept |-> AcceptTokens, accranges |-> AccRanges, addr |-> AddrTokens, xfh |-> XfhToks,
-                                        xfp |-> DOMAIN XfpVal, qtags |-> QTags, fwdpairs |-> FwdPairs],
+                                        xfp |-> DOMAIN XfpVal, qtags |-> QTags, fwdpairs |-> FwdPairs, big |-> BigToks],
                              attrs |-> Attrs, hnames |-> HNames]))
 PostG == PrintCounters /\ PrintVocab
 
 (* ----------------------------------------------------------------------- G instances *)
 GInit == /\ g \in Grammars
-         /\ req \in {IF g = "rset" THEN [Base(s) EXCEPT !.h["range"] = Hdr(<<"bytes", "=">>)] ELSE Base(s) :
+         /\ req \in {IF g \in {"rset", "rbig"} THEN [Base(s) EXCEPT !.h["range"] = Hdr(<<"bytes", "=">>)] ELSE Base(s) :
                          s \in IF g = "host" THEN AllSchemes ELSE {"http"}}
          /\ cache = EmptyCache /\ last = NoCall /\ h = <<>> /\ ZeroCounters
 Grow(gr) == /\ g = gr /\ Len(req.h[HdrOf[gr]].t) < Bounds[gr]
@@ -89,7 +91,8 @@ XETag  == Grow("etag") /\ Bump("XETag")
 XFwd   == Grow("fwd") /\ Bump("XFwd")
 XXff   == Grow("xff") /\ Bump("XXff")
 XHost  == Grow("host") /\ Bump("XHost")
-GNext == XAccept \/ XRange \/ XRSet \/ XCLen \/ XCLenX \/ XETag \/ XFwd \/ XXff \/ XHost
+XRBig  == Grow("rbig") /\ Bump("XRBig")
+GNext == XAccept \/ XRange \/ XRSet \/ XCLen \/ XCLenX \/ XETag \/ XFwd \/ XXff \/ XHost \/ XRBig
 
 (* decision-table export: one JSON object per header value *)
 EmitG == LET hd == req.h[HdrOf[g]] IN
